@@ -176,3 +176,48 @@ pub fn tcp_client_task(
     task.set_verif_connector(connector);
     (Channel { tx }, crate::client::ClientTask::tcp(task))
 }
+
+/// Observable steps of the TCP/TLS server task, reported at the point where they take effect
+#[derive(Copy, Clone, Debug, PartialEq, Eq)]
+pub enum Event {
+    /// the address filter decided about an accepted connection
+    Filter {
+        /// address of the peer as reported by `accept`
+        addr: std::net::IpAddr,
+        /// `true` if the connection is served
+        matches: bool,
+    },
+    /// a session was added to the tracker
+    Track {
+        /// id assigned to the new session
+        id: u128,
+        /// id of the session that was evicted to make room
+        evicted: Option<u128>,
+        /// number of tracked sessions afterwards
+        size: usize,
+    },
+    /// a session was removed from the tracker after it ended
+    Untrack {
+        /// id of the session
+        id: u128,
+        /// number of tracked sessions afterwards
+        size: usize,
+    },
+    /// the server task returned
+    ServerEnd,
+}
+
+type EventSink = Box<dyn Fn(&Event) + Send + Sync>;
+
+static SINK: std::sync::Mutex<Option<EventSink>> = std::sync::Mutex::new(None);
+
+/// Install (or remove) the receiver of [`Event`]s
+pub fn install_sink(sink: Option<EventSink>) {
+    *SINK.lock().unwrap_or_else(|e| e.into_inner()) = sink;
+}
+
+pub(crate) fn emit(event: Event) {
+    if let Some(sink) = SINK.lock().unwrap_or_else(|e| e.into_inner()).as_ref() {
+        sink(&event)
+    }
+}
